@@ -140,6 +140,11 @@ def check_closure(rep, mir, nums, which, st):
             l = signed32(m.eval(lv, model_completion=True).as_long()); rr = signed32(m.eval(rv, model_completion=True).as_long())
             dm = z3.is_true(m.eval(defined, model_completion=True)); want = signed32(m.eval(val, model_completion=True).as_long()) if dm else None
             src = csrc(rn, l, rr) if which == 1 else 'const int k = %s(%d);' % ({'neg': '-', 'not': '!', 'bnot': '~'}[rn], rr)
+            if src is None and rn in ('ternary_cond1', 'ternary_cond2'):
+                # the two halves of c ? a : b cannot be written alone: replay the whole conditional with the model's operands
+                if rn == 'ternary_cond1': cv, av, bv = l, rr, (rr + 1 if rr != 2147483647 else 5)
+                else: cv, av, bv = 0, 3, rr
+                src = 'const int k = (%d) ? (%d) : (%d);' % (cv, av, bv); want = av if cv != 0 else bv; dm = True
             if src is None:
                 st['unconfirmed_isolated'].append('%s(%d,%d): MIR result differs from the encoding spec' % (rn, l, rr)); rep.inconc('ternary encoding obligation failed for %s' % rn); continue
             out = replay_const(src); st['replays'] += 1
@@ -232,6 +237,38 @@ def fold_programs(tier):
     for op, k in itertools.product(['-', '~', '!'], ks):
         for dn in ('va', 'wa'):
             yield mkprog('fold/un%s/%d/%s' % (op, k, dn), [A(V(dn), Un(op, C(k)))])
+    # negative operands (written as differences, the way they arise in sources): C division truncates toward zero
+    for op, (ln, l), r in itertools.product(['/', '*', '+', '-', '<', '<=', '>', '>=', '==', '&', '|'], [('1-8', lambda: B('-', C(1), C(8))), ('0-1', lambda: B('-', C(0), C(1))), ('3-300', lambda: B('-', C(3), C(300))), ('-7', lambda: C(-7)),
+                                                                                                   ('2-130', lambda: B('-', C(2), C(130))), ('9', lambda: C(9))], [1, 2, 3, 7, -2, -3]):
+        for dn in ('sa', 'ha', 'va', 'wa'):
+            yield mkprog('fold/neg/%s/%s/%d/%s' % (op, ln, r, dn), [A(V(dn), B(op, l(), C(r)))])
+            if dn in ('sa', 'ha'):
+                fi = Func('fi', None, [], Block([A(V(dn), V('l'))], decls=[({'sa': 's8', 'ha': 's16'}[dn], 'l', B(op, l(), C(r)))]))
+                yield mkprog('fold/neg-init/%s/%s/%d/%s' % (op, ln, r, dn), [ExprS(Call('fi', []))], funcs=[fi], extra_globals=[dn])
+
+
+def table_programs(tabs):
+    """for the statement and the initialiser operator tables read from the MIR: every operator pair whose grouping differs from C,
+    with constants (chosen by z3) for which the two groupings give different values"""
+    a, b, c = z3.BitVecs('a b c', 32)
+    for tn, key in (('stmt', 'pratt'), ('init', 'pratt_init_value')):
+        t = pratt.table(tabs[key])
+        ops = [o for o in t if o in pratt.C_SYM and o != 'comma']
+        for o1, o2 in itertools.product(ops, ops):
+            g, cg = pratt.grouping(t, o1, o2), pratt.c_grouping(o1, o2)
+            if g == cg: continue
+            d1, x1 = spec(o1, a, b); dL, vL = spec(o2, x1, c)
+            d2, x2 = spec(o2, b, c); dR, vR = spec(o1, a, x2)
+            s = z3.Solver(); s.add(d1, dL, d2, dR, vL != vR, *[z3.And(v >= 0, v <= 9) for v in (a, b, c)])
+            if o1 in ('bls', 'brs'): s.add(b <= 3)
+            if o2 in ('bls', 'brs'): s.add(c <= 3)
+            if s.check() != z3.sat: continue
+            m = s.model(); av, bv, cv = [m.eval(x, model_completion=True).as_long() for x in (a, b, c)]
+            e = lambda: Flat([C(av), pratt.C_SYM[o1], C(bv), pratt.C_SYM[o2], C(cv)])
+            if tn == 'stmt': yield mkprog('table/stmt/%s.%s' % (o1, o2), [A(V('wa'), e())])
+            else:
+                fi = Func('fi', None, [], Block([A(V('wa'), V('l'))], decls=[('u16', 'l', e())]))
+                yield mkprog('table/init/%s.%s' % (o1, o2), [ExprS(Call('fi', []))], funcs=[fi], extra_globals=['wa'])
 
 
 def run(tier):
@@ -247,7 +284,7 @@ def run(tier):
     check_ternary(rep, st)
     tabs = check_table(rep, mir, st)
     check_sizeof(rep, st)
-    st2, smp, results = runner.against_reference(rep, list(fold_programs(tier)), levels=(('O1', ['-O1']),))
+    st2, smp, results = runner.against_reference(rep, list(fold_programs(tier)) + list(table_programs(tabs)), levels=(('O1', ['-O1']),))
     rep.cov = dict(explanation='bounded symbolic execution of the rustc MIR of parse_calc::{closure#1} (infix operators) and {closure#2} (prefix operators), dumped from the current tree; '
                    'z3 decides all 2^64 operand pairs per operator against 32-bit C semantics; the calculator operator table is read from the MIR of compile() and compared with C for every '
                    'ordered operator pair (disagreements get solver-chosen operands); sizeof and statement-level folding are cross-checked through the real compiler (E-TV for folding)',
